@@ -51,6 +51,7 @@ def check(ctx):
     cls = ctx.P.public_class("skchange.anomaly_detectors", "StatThresholdAnomaliser")
     ctx.guard("C17 SCENARIO", cls.name, lambda: check_all(ctx, cls), cls.module.relpath)
     ctx.guard("C17.c ONE-INTERVAL-PER-SEGMENT", "formatter", lambda: shared_formatter(ctx))
+    ctx.guard("C17.c ONE-INTERVAL-PER-SEGMENT", "segment-labels", lambda: shared_dense_labels(ctx))
     ctx.expect_min("C17", len([o for o in ctx.obs if o.status == "HOLDS"]), 8)
 
 
@@ -66,6 +67,24 @@ def shared_formatter(ctx):
     for o in ctx.obs[before:]:
         if "FORMATTER" in o.rule:
             o.rule = f"C17.c ONE-INTERVAL-PER-SEGMENT ({o.rule})"
+
+
+def shared_dense_labels(ctx):
+    """The segments whose statistic is thresholded are the groups of the wrapped change detector's DENSE labels
+    (`transform`, summarised in the scenario above): `ChangeDetector.sparse_to_dense` must give every segment between two
+    changepoints its own label - a dropped last changepoint merges two segments into one group.  The C05.e DENSE-FILL
+    obligations of that conversion, re-run under the C17 id."""
+    from . import c05
+
+    base = ctx.P.cls("skchange.change_detectors.base.ChangeDetector")
+    before = len(ctx.obs)
+    c05.check_s2d(ctx, base)
+    kept = []
+    for o in ctx.obs[before:]:
+        if "DENSE-FILL" in o.rule or o.status == "UNDECIDED":
+            o.rule = f"C17.c ONE-INTERVAL-PER-SEGMENT ({o.rule})"
+            kept.append(o)
+    ctx.obs[before:] = kept
 
 
 def check_all(ctx, cls):
@@ -136,7 +155,12 @@ def check_all(ctx, cls):
     ok_tr = len(trs) == 1 and trs[0].kind == "detector_transform" and isinstance(cd_, ObjV) and trs[0].data["obj"].key == cd_.key and isinstance(trs[0].data["data"], Num) and nf_equal(trs[0].data["data"].nf, sym("X"))
     ctx.check(ok_tr, rule, "clone-used", trs[0].loc() if trs else predm.loc(), "_predict segments the CURRENT input with the fitted clone (its dense transform)", found=[(e.kind, e.data["obj"].key, valkey(e.data["data"])) for e in trs])
     # ------------------------------------------------------------ the group loop
-    flagged = [q for q in good if any(e.kind == "list_append" and e.func is not None and e.func.name == "_predict" for e in q.events)]
+    # "in predict": any event after the fit phase of the scenario, whichever helper of _predict it sits in
+    def pred_events(q_, kind):
+        k0 = mark_index(q_, "fit-done")
+        return [e for i_, e in enumerate(q_.events) if i_ > k0 and e.kind == kind and e.func is not None]
+
+    flagged = [q for q in good if pred_events(q, "list_append")]
     unflag = [q for q in good if q not in flagged]
     rule_b = "C17.b FLAG-PREDICATE"
     lo, hi = sym("stat_lower"), sym("stat_upper")
@@ -144,7 +168,7 @@ def check_all(ctx, cls):
         ctx.violation(rule_b, "branches", predm.loc(), "the flagging decision does not have both outcomes", found=f"{len(flagged)} flagging / {len(unflag)} non-flagging paths")
         return
     q = flagged[0]
-    app_e = [e for e in q.events if e.kind == "list_append" and e.func.name == "_predict"][0]
+    app_e = pred_events(q, "list_append")[0]
     guard = app_e.facts[-1] if app_e.facts else None
     stat_nf = None
     ok_pred = False
@@ -169,8 +193,8 @@ def check_all(ctx, cls):
         is_stat = a is not None and a.kind == "app" and a.args[0] in ("mean",)
         # the column the statistic reads must be the one under which the DATA were stored
         data_col = None
-        for e in q.events:
-            if e.kind == "pandas_ctor" and e.func is not None and e.func.name == "_predict" and isinstance(e.data["data"], DictV):
+        for e in pred_events(q, "pandas_ctor"):
+            if isinstance(e.data["data"], DictV):
                 for kk, vv in e.data["data"].items:
                     if isinstance(kk, StrV) and isinstance(vv, Num) and vv.nf is not None and nf_equal(vv.nf, app("col", sym("X"), NF.const(0))):
                         data_col = kk.s
@@ -189,7 +213,7 @@ def check_all(ctx, cls):
     ctx.check(okt, rule_c, "interval", app_e.loc(), "a flagged group is reported as (its first position, its last position + 1)", found=repr(tv)[:200], expected="(int(segment.index[0]), int(segment.index[-1] + 1))")
     ctx.check(bool(app_e.loops), rule_c, "per-group", app_e.loc(), "one interval per group of the grouping (inside the group loop)", found=f"{len(app_e.loops)} enclosing loops")
     # the grouped frame: built by the library from the data column and the clone's labels
-    ctor = [e for e in q.events if e.kind == "pandas_ctor" and e.func is not None and e.func.name == "_predict"]
+    ctor = pred_events(q, "pandas_ctor")
     okf = False
     found = "no frame built in _predict"
     for e in ctor:
